@@ -196,7 +196,13 @@ class Operation(ElementBase):
 
     @property
     def parts(self):
-        return [self.bottom_face, self.top_face, *self.side_edges]
+        # an edge object that is used for several side edges must only be transformed once
+        side_edges = []
+        for edge in self.side_edges:
+            if not any(edge is other for other in side_edges):
+                side_edges.append(edge)
+
+        return [self.bottom_face, self.top_face, *side_edges]
 
     @property
     def points(self) -> List[Point]:
@@ -316,7 +322,8 @@ class Operation(ElementBase):
         self.top_face, self.bottom_face = self.bottom_face, self.top_face
 
         # side edges now start at what used to be their end
-        for edge in self.side_edges:
+        # (self.parts lists each edge object once)
+        for edge in self.parts[2:]:
             edge.reverse()
 
         return self
